@@ -100,10 +100,18 @@ def _judge(H, net):
         rev.add_node(v, **dict(d))
     for u, v, d in reversed(list(bip.edges(data=True))):
         rev.add_edge(u, v, **dict(d))
-    for view, obj in (("hypergraph", H), ("bipartite", bip), ("bipartite_reversed_insertion", rev)):
+    Hiso = H.copy()  # the same reactions plus a registered species that occurs in none of them: by the definitions it is a siphon and a trap on its own
+    Hiso.add_rxn({"Zz9": 1}, {"Zy9": 1}, edge_id="tmp_iso")
+    Hiso.remove_species("Zz9", prune_orphans=False)
+    Hiso.remove_rxn("tmp_iso")
+    iso_ok = "Zz9" in Hiso.species and len(Hiso.edges) == len(H.edges)
+    for view, obj in (("hypergraph", H), ("bipartite", bip), ("bipartite_reversed_insertion", rev)) + ((("with_isolated_species", Hiso),) if iso_ok else ()):
         for k in [None] + list(range(1, len(used) + 1)):
             want_s = minimal({S for S in sip if k is None or len(S) <= k})
             want_t = minimal({S for S in trp if k is None or len(S) <= k})
+            if view == "with_isolated_species":
+                want_s = want_s | {frozenset({"Zz9"})}
+                want_t = want_t | {frozenset({"Zz9"})}
             got_s = find_siphons(obj, max_size=k)
             got_t = find_traps(obj, max_size=k)
             ncalls += 2
